@@ -123,16 +123,16 @@ type Explorer struct {
 	Params      map[string]int
 
 	// per path
-	inputs   []InputRec
-	inputSet map[string]*term.Term
-	observed []obsRec
+	inputs      []InputRec
+	inputSet    map[string]*term.Term
+	observed    []obsRec
 	expectPanic int
-	owned    bool
-	env      *term.RangeEnv
-	Filtered int
-	pending  []pendingAssert
-	realDecs int
-	NoBatch  bool
+	owned       bool
+	env         *term.RangeEnv
+	Filtered    int
+	pending     []pendingAssert
+	realDecs    int
+	NoBatch     bool
 }
 
 type obsRec struct {
